@@ -127,7 +127,7 @@ func (t *routetable) Match(path string) *Route {
 	if r != nil {
 		ret := *r
 		r = &ret
-		if r.URL[len(r.URL)-1] == '/' {
+		if len(r.URL) > 0 && r.URL[len(r.URL)-1] == '/' {
 			r.URL = r.URL + path[len(r.Pattern):]
 		} else {
 			r.URL = r.URL + path[len(r.Pattern)-1:]
